@@ -6,12 +6,19 @@ import json, os, subprocess, sys
 
 HERE = os.path.dirname(os.path.dirname(os.path.abspath(__file__)))
 
-# property -> (technique, level text, level note)
-CLAIMED = {
- "C07": ("edge-cut reachability on SSA CFG (R-CUT) + def-use provenance (R-PROV) + append-site classification (R-OWN)",
-         "Every chain appended by buildChains/findVerifiedParents/FilterByDate and every nil-error exit of Verify/isValid is shown, on all CFG paths, to lie behind the specific validity, repetition, signature, EKU, date and hostname guards for the same certificate value.",
-         "Structural necessary conditions only: the buildChains memoisation (cache keyed by intermediate index) and the arithmetic of the guards themselves are not decided; one named lemma cut (FilterByDate partition) is used in Verify."),
-}
+def claimed():
+    """Ask the checker which properties it implements, with their texts."""
+    env = dict(os.environ, PATH="/opt/veriftools/go1.26.8/bin:" + os.environ["PATH"])
+    out = subprocess.run([os.path.join(HERE, "run.sh"), "-list"], capture_output=True, text=True, env=env, check=True).stdout
+    d = {}
+    for l in out.splitlines():
+        if l.startswith("{"):
+            p = json.loads(l)
+            tech = p["technique"] or "edge-cut reachability over the SSA control-flow graph (R-CUT), def-use provenance (R-PROV), writer obligations (R-OWN), table agreement (R-TABLE)"
+            d[p["id"]] = (tech, p["explain"], "Structural necessary conditions only, decided exactly on the SSA of the current tree. Not covered: " + p["not_covered"])
+    return d
+
+CLAIMED = claimed()
 
 NOT_APPLICABLE = {
  "C18": "ASN.1 Marshal/Unmarshal round-trip equality over reflect-driven codecs is a value property; the only structural link between the two directions is one shared function (getUniversalType), so there is no sibling table to cross-check statically.",
